@@ -68,13 +68,14 @@ StateFails(e, sr) ==
         \cup Fail("C13_DeletionCompletes", C13_DeletionCompletes(s.job, s.pods, NoKube(s)))
         \cup Fail("C13_TTLEventually", C13_TTLEventually(c, s.job, s.now)))
 
-StepFails(e, p, ps, ed, ud, ta, tlb, li, da, srp) ==
+StepFails(e, p, ps, ed, ud, ta, tlb, li, da, srp, at) ==
     LET s == e.st  c == e.cfg  dels == Range(e.dels)
         known == li \cup {[name |-> q.name, idx |-> q.idx, retry |-> q.retry] : q \in Mine(p.pods)} IN
          Fail("C08_Order", C08_OrderStep(c, p.pods, s.pods, known))
     \cup Fail("C08_Delay", C08_DelayStep(c, p.pods, s.pods, ps, s.now))
     \cup Fail("C08_Gates", C08_GatesStep(c, p.pods, s.pods, ps, srp))
     \cup Fail("C09_Keep", C09_KeepStep(p.job, s.job))
+    \cup Fail("C09_AdmOnlyForeign", C09_AdmOnlyForeignStep(p.job, s.job, at))
     \cup Fail("C10_NoLiveAtFinish", C10_NoLiveAtFinishStep(p.job, s.job, s.pods))
     \cup Fail("C11_Monotone", C11_MonotoneStep(p.job, s.job, ed))
     \cup Fail("C12_DeleteJustified", C12_DeleteJustifiedStep(c, dels, p.pods, s.pods, ps, s.now, EverOf(s), SuccOf(s)))
@@ -107,7 +108,7 @@ Next ==
            over == /\ s.job.ex /\ s.job.started /\ ~\E q \in Mine(s.pods) : Alive(q)
                    /\ (s.job.adm \/ at \/ (s.job.kill # 0 /\ s.job.kill <= s.now) \/ DecidedTruth(e.cfg, s.pods, EverOf(s), SuccOf(s)))
            da == IF reset THEN 0 ELSE IF doneAt = 0 /\ over THEN s.now ELSE doneAt
-           fs == StateFails(e, sr) \cup (IF reset \/ l = 1 THEN {} ELSE StepFails(e, p, ps, ed, ud, ta, tlb, listed, da, succRec))
+           fs == StateFails(e, sr) \cup (IF reset \/ l = 1 THEN {} ELSE StepFails(e, p, ps, ed, ud, ta, tlb, listed, da, succRec, at))
            \* primary manifestations of the known cache-skew findings taint the rest of the run
            inpass == e.ev \in {"SyncBegin", "Step"}
            \* the pass acted: it issued Pod deletes or a mutating call that took effect
@@ -123,7 +124,9 @@ Next ==
           /\ listed' = li /\ succRec' = sr /\ doneAt' = da
           /\ hf' = IF e.ev = "Reset" THEN FALSE ELSE hf \/ IsFault(e)
           /\ viol' = viol \cup {r \in {[f |-> f, line |-> l, run |-> e.run, ev |-> e.ev, faulted |-> e.faulted, af |-> (hf \/ IsFault(e)),
-                                 taint |-> tn, adm |-> at, foreign |-> e.cfg.foreign] : f \in fs} : ~\E v \in viol : v.f = r.f /\ v.run = r.run}   \* first failure of a formula in a run only
+                                 taint |-> tn, adm |-> at, foreign |-> e.cfg.foreign,
+                                 \* the Job was complete for the creating pass only through tasks that exist in its Pod cache but are not recorded in the cached status
+                                 unrec |-> (f = "C08_Gates" /\ ps.j.ex /\ DecidedView(e.cfg, ps) /\ ~DecidedViewRec(e.cfg, ps))] : f \in fs} : ~\E v \in viol : v.f = r.f /\ v.run = r.run}   \* first failure of a formula in a run only
 Spec == Init /\ [][Next]_vars
 
 Report == (l = N + 1) => PrintT(<<"VERDICT", N, ToJson(viol)>>)
